@@ -11,7 +11,7 @@ for f in ("SEED/meta.json", "SEED/demo/RUN.txt"):
         txt += open(os.path.join(wt, f)).read() + "\n"
     except Exception:
         pass
-m = re.search(r"-run\s+['\"]?([^\s'\"]+)['\"]?", txt)
+m = re.search(r"-run\s+['\"]?\^?(Test[^\s'\"]*)['\"]?", txt)
 p = re.search(r"(\./(?:internal|pkg)/[\w/\-\.]*)", txt[m.end():] if m else txt)
 if not m or not p:
     print("cannot find demo command in", wt); sys.exit(2)
